@@ -1,5 +1,5 @@
 (* C09 — Element properties behave as a per-element ordered key-value map.
-   Pinned statements only; proofs live in theories/DbValueProofs.v, KvProofs.v, KvDbProofs.v,
+   Pinned statements only; proofs live in theories/DbValueEqProofs.v, KvProofs.v, KvDbProofs.v,
    KvSelectProofs.v (and DbInvProofs.v for the history level).
 
    Vocabulary: `kvs_get s i` is the property list of the element in slot |i| (map order);
@@ -11,7 +11,7 @@
      vals_distinct ks  : a request / key list without equal keys
      listed ks p       : the key of pair p is one of ks. *)
 From Agdb Require Import Bytes DbValue Graph DbModel Search Queries Revisions
-  DbValueProofs KvProofs KvDbProofs KvSelectProofs QStepProofs.
+  DbValueEqProofs KvProofs KvDbProofs KvSelectProofs QStepProofs.
 Open Scope Z_scope.
 
 (* ---- key equality is an equivalence; on values whose f64 payloads are 64-bit patterns it is
